@@ -42,6 +42,18 @@ def run_case(z, steps, settle, addr):
                     obs.append(('bind', 'ok'))
                 except Exception as exc:
                     obs.append(('bind', 'error'))
+            elif op == 'bind_retry':
+                for _ in range(2000):
+                    try:
+                        socks[st[1]].bind(addr(st[2]))
+                        break
+                    except Exception:
+                        time.sleep(0.001) if z.__name__ == 'zmq' else None
+                else:
+                    raise RuntimeError('bind_retry: address never became free')
+            elif op == 'simflag':
+                if z.__name__ != 'zmq':
+                    setattr(z._current_world.net, st[1], st[2])
             elif op == 'connect':
                 socks[st[1]].connect(addr(st[2]))
             elif op == 'close':
